@@ -18,10 +18,10 @@ PID = 'C01'
 RULE = ('cases = (package, extinction law, A_V range, sources) drawn from the quantifier of C01; a case is '
         'non-trivial when at least one model is fitted with >=2 fitted bands of distinct extinction coefficient; '
         'distinct = distinct canonical hash of the generated inputs')
-REQUIRED_BRANCHES = ['clamp_low', 'clamp_high', 'interior', 'lo_eq_hi', 'limit_violated', 'limit_ok', 'flag4', 'flag0or9']
+REQUIRED_BRANCHES = ['range_end_zero', 'law_other_unit', 'clamp_low', 'clamp_high', 'interior', 'lo_eq_hi', 'limit_violated', 'limit_ok', 'flag4', 'flag0or9']
 ASSUMPTIONS = ['IEEE rounding is not modelled: comparison tolerance 1e-9 x condition number',
                'decisions closer than 1e-7 to their threshold are compared in relaxed mode']
-N = {'quick': 60, 'thorough': 1500}
+N = {'quick': 160, 'thorough': 3000}
 FLAGS = [0, 1, 2, 3, 4, 9]
 
 
@@ -40,14 +40,20 @@ def gen_case(rng, directed=None):
     tw = sorted({lo_w, hi_w} | {nice(rng, lo_w, hi_w, 3) for _ in range(nt)})
     chi = [nice(rng, 1., 1e4, 3) for _ in tw]
     models = [[nice(rng, 1e-3, 1e3, 4) for _ in range(nb)] for _ in range(nm)]
-    kind = directed or rng.choice(['interior', 'clamp_low', 'clamp_high', 'lo_eq_hi', 'wide', 'wide'])
+    kind = directed or rng.choice(['interior', 'clamp_low', 'clamp_high', 'lo_eq_hi', 'wide', 'wide', 'zero_end'])
     a0 = round(rng.uniform(0.5, 12.), 2)
+    # the law may be tabulated in any length unit (the filters' wavelengths are converted to it by the code)
+    wav_unit = rng.choice(['micron', 'micron', 'nm', 'Angstrom', 'cm', 'm', 'mm'])
     if kind == 'interior' or kind == 'wide':
         av = [round(-rng.uniform(0, 40), 1), round(rng.uniform(20, 80), 1)]
     elif kind == 'clamp_low':
         av = [round(a0 * 3 + 10, 1), round(a0 * 3 + 10 + rng.uniform(0, 5), 1)]
     elif kind == 'clamp_high':
         av = [round(-30 - rng.uniform(0, 5), 1), round(-25., 1)]
+    elif kind == 'zero_end':
+        # ranges with an end at exactly 0 (A_V >= 0 is the natural physical bound)
+        av = rng.choice([[0., 0.], [-round(rng.uniform(1, 30), 1), 0.], [0., round(rng.uniform(1, 30), 1)],
+                         [-0., 0.], [0., 0.]])
     else:
         v = round(rng.uniform(0, 10), 1)
         av = [v, v]
@@ -76,12 +82,23 @@ def gen_case(rng, directed=None):
                 flux.append(f)
                 err.append(float('%.3g' % (f * nice(rng, 1e-3, 0.5, 2))))
         sources.append(dict(flags=flags, flux=flux, err=err))
-    return dict(kind=kind, wavs=wavs, tab_w=tw, tab_chi=chi, models=models, av=av, sources=sources)
+    return dict(kind=kind, wavs=wavs, tab_w=tw, tab_chi=chi, wav_unit=wav_unit, models=models, av=av, sources=sources)
+
+
+def table_in_unit(case):
+    """the law's wavelength column, V = 0.55 micron and the filter wavelengths, each expressed in the unit the
+    table is tabulated in, converted by astropy exactly as Extinction.get_av does (floats)"""
+    from astropy import units as u
+    unit = u.Unit(case.get('wav_unit', 'micron'))
+    tab = (np.array(case['tab_w'], dtype=float) * u.micron).to(unit).value
+    v = float(([0.55] * u.micron).to(unit).value[0])
+    w = (np.array(case['wavs'], dtype=float) * u.micron).to(unit).value
+    return unit, [float(x) for x in tab], v, [float(x) for x in w]
 
 
 def gen_cases(seed, tier):
     n = N[tier]
-    directed = ['interior', 'clamp_low', 'clamp_high', 'lo_eq_hi']
+    directed = ['interior', 'clamp_low', 'clamp_high', 'lo_eq_hi', 'zero_end', 'zero_end', 'zero_end', 'zero_end']
     for i in range(n):
         rng = case_rng(seed, PID, i)
         yield gen_case(rng, directed[i] if i < len(directed) else None)
@@ -98,7 +115,8 @@ def build(case, scratch_dir):
         fnames.append(fn)
         pk.write_convolved(d, fn, w, names, [[case['models'][i][j]] for i in range(nm)],
                            [[0.] for _ in range(nm)], apertures_au=None)
-    ext = pk.make_extinction(case['tab_w'], case['tab_chi'])
+    unit, tab, _, _ = table_in_unit(case)
+    ext = pk.make_extinction(tab, case['tab_chi'], wav_unit=unit)
     fitter = pk.make_fitter(d, fnames, [1.] * len(fnames), ext, case['av'])
     return fitter, names
 
@@ -106,10 +124,11 @@ def build(case, scratch_dir):
 def model_side(case, src):
     drv = common.driver()
     nb = len(case['wavs'])
-    line = ['fit2', rat(case['av'][0]), rat(case['av'][1]), rat(0.55), str(len(case['tab_w']))]
-    for w, c in zip(case['tab_w'], case['tab_chi']):
+    _, tab, v, wq = table_in_unit(case)
+    line = ['fit2', rat(case['av'][0]), rat(case['av'][1]), rat(v), str(len(tab))]
+    for w, c in zip(tab, case['tab_chi']):
         line += [rat(w), rat(c)]
-    line.append(rats(case['wavs']))
+    line.append(rats(wq))
     line.append(str(nb))
     for f, x, e in zip(src['flags'], src['flux'], src['err']):
         line += [str(f), rat(x), rat(e)]
@@ -147,6 +166,10 @@ def run_case(case):
         lo, hi = case['av']
         if lo == hi:
             branches.add('lo_eq_hi')
+        if lo == 0 or hi == 0:
+            branches.add('range_end_zero')
+        if case.get('wav_unit', 'micron') != 'micron':
+            branches.add('law_other_unit')
         nontrivial = False
         for si, src in enumerate(case['sources']):
             if singular(case, src):
